@@ -7,6 +7,7 @@
 -/
 import N2V.Model.World
 import N2V.Lemmas.Work
+import N2V.Lemmas.LoadSched
 namespace N2V.C02
 open N2V N2V.Work N2V.Load
 
@@ -106,5 +107,27 @@ theorem manifest_contents (e : Env) (bm : BuildM) (b : Nat) :
     (manifestOf e bm b).cmd = bm.cmdline.getD [] ∧ (manifestOf e bm b).rsp = bm.rspfile := by
   unfold manifestOf
   simp [List.map_map, Function.comp]
+
+/-! ### What a whole invocation may change -/
+
+/-- **n2 itself writes nothing but the log; only commands write, and only their outputs.**  For
+    every world and loadable manifest, every argument vector and every scheduling behaviour, at
+    the end of `run::build` (both phases, success or not): every file that is not an output of a
+    build statement (nor the private input an `rw` command of the abstract semantics rewrites) has
+    exactly the state it had (existence, mtime, content); the log is the old log plus appended
+    records; the signatures loaded at start-up, the build statements and the ids and names of the
+    known files are unchanged; the clock did not go back. -/
+theorem invocation_changes_only_outputs (w : World) (m : Bytes) (l : Loader) (e0 : Env)
+    (h : loadEnv w m = .ok (l, e0)) (a : Run.Args) (adopt : Bool) (perms : List (List Nat))
+    (fin : List (Nat × Sched.Term)) :
+    Within e0 (Run.build (schedGraph e0.g) a (choices adopt perms fin) e0).2.1 :=
+  build_within e0 (ginv_idsOK e0.g (loadEnv_graph_ok w m l e0 h).1) _ a adopt perms fin
+
+/-- The same for the part of an invocation that follows a manifest reload. -/
+theorem reloaded_part_changes_only_outputs (w : World) (m : Bytes) (l : Loader) (e0 : Env)
+    (h : loadEnv w m = .ok (l, e0)) (a : Run.Args) (adopt : Bool) (perms : List (List Nat))
+    (fin : List (Nat × Sched.Term)) (n : Nat) :
+    Within e0 (Run.buildReloaded (schedGraph e0.g) a (choices adopt perms fin) e0 n).2.1 :=
+  buildReloaded_within e0 (ginv_idsOK e0.g (loadEnv_graph_ok w m l e0 h).1) _ a adopt perms fin n
 
 end N2V.C02
